@@ -563,8 +563,17 @@ def first_line(msg):
 
 
 def well_framed(out1):
+    """The first output is balanced CSS and has the shape of what was generated: declarations only inside style rules,
+    @font-face and keyframe blocks (if the first compile read a rule as something else, that is not about reading back)."""
     try:
-        return css.balance(out1) is None
+        if css.balance(out1) is not None:
+            return False
+        for path, nd in css.walk(css.parse(css.strip_header(out1))):
+            if nd['t'] == 'junk':
+                return False
+            if nd['t'] == 'decl' and (not path or path[-1].lower().startswith(('@media', '@supports'))):
+                return False
+        return True
     except Exception:
         return False
 
@@ -763,6 +772,9 @@ def isolate_many(ctx, failing):
         if 'string' in a['kind']:
             seq = sorted(set(seq))  # inside quotes the order of the characters does not matter
         part = '%s|chars=%s' % (a['kind'], ','.join(seq))
+        if x[1] == 'differs' and {'private-use', 'hex-digit'} <= set(seq) <= {'private-use', 'hex-digit', 'space'}:
+            # one printer defect wherever the word or string stands: the escape of a private-use character is not terminated
+            part = 'private-use-character-before-hex-digit'
         if x[1] == 'respelled':
             part = a['kind']        # the characters only matter through the escape that writes them
         ctx.violation('%s|observed=%s' % (part, x[1]), {'src': with_chars(a, st['idx']), 'part': part}, x[2])
